@@ -519,8 +519,10 @@ def template_sequence(rng, pool, lvl, force_frag=None):
         uses_frag = False
         return units, uses_frag
     uses_frag = can_frag and (force_frag if force_frag is not None else rng.random() < 0.6)
-    mixed = lvl == 0 and can_frag and rng.random() < 0.15
+    mixed = lvl == 0 and can_frag and rng.random() < 0.3
     n = rng.choice([0, 1, 1, 2, 2, 3, 4])
+    if mixed:
+        n = max(n, rng.choice([2, 3, 3, 4]))
     if pool.pcm == 1:
         n -= n % 2
     units.append({"t": "H"})
